@@ -199,6 +199,8 @@ Holds(e) ==
     \* package constants
     [] e.op = "Order"         -> e.ret = Bytes32(N_m) /\ Abs!NoChange
     [] e.op = "Lengths"       -> e.scalar = 32 /\ e.element = 33 /\ Abs!NoChange
+    \* RFC 9380 8.7: the suite identifier "secp256k1_XMD:SHA-256_SSWU_RO_"
+    [] e.op = "Ciphersuite"   -> e.ret = <<115, 101, 99, 112, 50, 53, 54, 107, 49, 95, 88, 77, 68, 58, 83, 72, 65, 45, 50, 53, 54, 95, 83, 83, 87, 85, 95, 82, 79, 95>> /\ Abs!NoChange
 
 \* a decoder witness that proves nothing (Sec1!CertFail) is a harness fault
 DecodeCertFails(e) ==
